@@ -475,6 +475,89 @@ def run_raw(c):
     return tr
 
 
+class SeqEcho:
+    """component for a connection that carries several requests: answers the k-th call with the k-th canned body"""
+
+    def __init__(self, answers):
+        self.answers, self.seen = answers, []
+
+    def do_post(self, headers, path, peer_name, request_bytes):
+        self.seen.append(request_bytes)
+        k = len(self.seen) - 1
+        return 200, 'Ok', self.answers[k] if k < len(self.answers) else b'<unexpected-extra-call/>'
+
+
+class SharedSock:
+    """all HTTPResponse objects of one connection read from the same buffered stream (close() of one must not end it)"""
+
+    def __init__(self, data):
+        self.fp = io.BufferedReader(io.BytesIO(data), buffer_size=max(8192, len(data) + 16))   # peek() must see the whole rest
+
+    def makefile(self, mode, *a, **k):
+        outer = self
+
+        class NoClose:
+            def __getattr__(self, n):
+                return getattr(outer.fp, n)
+
+            def close(self):
+                pass
+
+            def flush(self):
+                pass
+        return NoClose()
+
+
+def parse_responses(raw, limit=50):
+    """every response on the connection, in order: [(status, headers, decoded body | None, error)] + unparsed rest"""
+    sock = SharedSock(raw)
+    res = []
+    while len(res) < limit and sock.fp.peek(1):
+        if not sock.fp.peek(5).startswith(b'HTTP/'):
+            break
+        r = http.client.HTTPResponse(sock, method='POST')
+        try:
+            r.begin()
+            hdrs = {k.lower(): v for k, v in r.getheaders()}
+            try:
+                body, err = HTTPReader.read_response_body(r), None
+            except Exception as exc:  # noqa: BLE001
+                body, err = None, f'{type(exc).__name__}: {exc}'[:120]
+            res.append((r.status, hdrs, body, err))
+        except Exception as exc:  # noqa: BLE001
+            res.append((None, {}, None, f'{type(exc).__name__}: {exc}'[:120]))
+            break
+    return res, sock.fp.read()
+
+
+def run_conn(c):
+    """several requests with their own Accept-Encoding / Content-Encoding / framing on ONE connection (one handler instance)"""
+    reqs = c['requests']
+    echo = SeqEcho([bytes.fromhex(r['answer']) for r in reqs])
+    srv = mk_server(c['server_enabled'], c['server_chunk'], echo)
+    raw = b''
+    for r in reqs:
+        body = bytes.fromhex(r['body'])
+        head = b'POST /dev/svc HTTP/1.1\r\nHost: h\r\n'
+        if r.get('accept') is not None:
+            head += b'Accept-Encoding: ' + r['accept'].encode('latin-1') + b'\r\n'
+        if r.get('ce'):
+            body = CompressionHandler.compress_payload(r['ce'], body)
+            head += b'Content-Encoding: ' + r['ce'].encode() + b'\r\n'
+        if r.get('chunk'):
+            head += b'Transfer-Encoding: chunked\r\n'
+            body = mk_chunks(body, r['chunk'])
+        else:
+            head += b'Content-Length: %d\r\n' % len(body)
+        raw += head + b'\r\n' + body
+    out_bytes, escaped = serve(raw, srv)
+    responses, rest = parse_responses(out_bytes)
+    return {'escaped': escaped, 'server_saw': [None if b is None else b.hex() for b in echo.seen],
+            'responses': [{'status': st, 'ce': h.get('content-encoding'), 'te': h.get('transfer-encoding'),
+                           'content': None if b is None else b.hex(), 'err': e} for st, h, b, e in responses],
+            'unparsed_output': len(rest)}
+
+
 def run_codec(c):
     data = bytes.fromhex(c['data'])
     alg = c['alg']
@@ -509,7 +592,7 @@ def run_codec(c):
 
 RUNNERS = {'mk_chunks': run_mk_chunks, 'reader': run_reader, 'response': run_response,
            'parse_header': run_parse_header, 'server_choice': run_server_choice,
-           'client_choice': run_client_choice, 'e2e': run_e2e, 'raw': run_raw, 'codec': run_codec}
+           'client_choice': run_client_choice, 'e2e': run_e2e, 'raw': run_raw, 'codec': run_codec, 'conn': run_conn}
 for key, fn in RUNNERS.items():
     if key in req:
         res = []
